@@ -370,6 +370,106 @@ example : advance 100 5 4 [] = ([], [95, 96, 97, 98, 99, 100, 101, 102, 103]) :=
 example : advance 103 5 4 [95, 96, 97, 98, 99, 100, 101, 102, 103] =
     ([95, 96, 97], [98, 99, 100, 101, 102, 103, 104, 105, 106]) := by decide
 
+
+/-! ### the window under a ShortWindow that changes at run time (remote config) -/
+
+/-- ready_drop_range plus: a bucket is dropped only when the clock is past its admission window -/
+theorem ready_drop_range_lt (now sw : Nat) : ∀ (n a : Nat), a + n + sw < u32 → ∃ k, k ≤ n ∧
+    readyOf now sw (List.range' a n) = List.range' a k ∧
+    dropReady now sw (List.range' a n) = List.range' (a + k) (n - k) ∧ (0 < k → a + k + sw ≤ now) := by
+  intro n
+  induction n with
+  | zero => intro a _; exact ⟨0, by simp [dropReady, readyOf]⟩
+  | succ n ih =>
+    intro a hb
+    simp only [List.range'_succ, dropReady, readyOf]
+    have hm : (a + sw) % u32 = a + sw := Nat.mod_eq_of_lt (by omega)
+    rw [hm]
+    split
+    · rename_i hgt
+      obtain ⟨k, hk, hr, he, hlt⟩ := ih (a + 1) (by omega)
+      refine ⟨k + 1, by omega, ?_, ?_, ?_⟩
+      · rw [hr, List.range'_succ]
+      · rw [he]; congr 1 <;> omega
+      · intro _
+        by_cases hk0 : 0 < k
+        · have := hlt hk0; omega
+        · have : k = 0 := by omega
+          subst this; omega
+    · exact ⟨0, by omega, by simp, by simp [List.range'_succ], by omega⟩
+
+/-- advance_window without the assumption that the window is at most ShortWindow+FutureWindow long (it is longer
+    right after ShortWindow was lowered): one call of advanceRecentBuckets with ANY ShortWindow turns a run of
+    consecutive seconds into a run of consecutive seconds, at least ShortWindow+FutureWindow long; the buckets that
+    stay keep their seconds, what leaves is handed out as ready, and the start moves forward to at most now-sw. -/
+theorem advance_window_any (now sw fw a n : Nat) (hpos : 0 < sw + fw)
+    (hnow : sw ≤ now) (hmax : now + sw + fw < u32) (ha : a + n + sw + fw < u32) :
+    ∃ k a' n', k ≤ n ∧ (advance now sw fw (List.range' a n)).1 = List.range' a k ∧
+      (advance now sw fw (List.range' a n)).2 = List.range' a' n' ∧
+      sw + fw ≤ n' ∧ n' ≤ max n (sw + fw) ∧ (k < n → a' = a + k) ∧ (k = n → a' = now - sw ∧ n' = sw + fw) ∧
+      a' ≤ max a (now - sw) := by
+  obtain ⟨k, hk, hr, hd, hlt⟩ := ready_drop_range_lt now sw n a (by omega)
+  unfold advance
+  simp only [hr, hd]
+  by_cases hkn : k = n
+  · subst hkn
+    refine ⟨k, now - sw, sw + fw, Nat.le_refl _, rfl, ?_, Nat.le_refl _, by omega, by omega, fun _ => ⟨rfl, rfl⟩, by omega⟩
+    have h1 : (now + u32 - sw % u32) % u32 = now - sw := by unfold u32 at *; omega
+    simp only [Nat.sub_self, List.range'_zero, List.isEmpty_nil, ↓reduceIte, h1, List.headD_cons, List.length_cons,
+      List.length_nil]
+    have := extend_range (now - sw) (sw + fw - 1) 1 (by unfold u32 at *; omega)
+    simp only [List.range'_one] at this
+    rw [show 0 + 1 = 1 from rfl, this]
+    congr 1; omega
+  · obtain ⟨m, hm⟩ : ∃ m, n - k = m + 1 := ⟨n - k - 1, by omega⟩
+    refine ⟨k, a + k, (m + 1) + (sw + fw - (m + 1)), hk, rfl, ?_, by omega, by omega, fun _ => rfl,
+      fun h => absurd h hkn, ?_⟩
+    · simp only [hm, List.range'_succ, List.isEmpty_cons, Bool.false_eq_true, ↓reduceIte, List.headD_cons,
+        List.length_cons, List.length_range']
+      have := extend_range (a + k) (sw + fw - (m + 1)) (m + 1) (by unfold u32 at *; omega)
+      simp only [List.range'_succ] at this
+      rw [this]
+    · by_cases hk0 : 0 < k
+      · have := hlt hk0; omega
+      · omega
+
+/-- a schedule of ticks, each with the clock value and the ShortWindow in force at that tick -/
+def runAdvance (fw : Nat) : List (Nat × Nat) → Window → Window
+  | [], w => w
+  | (now, sw) :: rest, w => runAdvance fw rest (advance now sw fw w).2
+
+/-- For ANY sequence of ticks with ANY ShortWindow values up to S (raised, lowered, by 1, by 2, …) and any clock
+    values up to N (forward, backward, jumps), recentBuckets stays a run of consecutive seconds
+    (recentBuckets[i].time = recentBuckets[0].time + i), non-empty after the first tick — which is what
+    filed_in_own_bucket / filed_general assume about the window.  (A, L bound start and length so that nothing comes
+    near 2^32.) -/
+theorem window_always_contiguous (fw S N A L : Nat) (hfw : 0 < fw) (hb : A + L + S + fw < u32) (hN : N ≤ A)
+    (hL : S + fw ≤ L) : ∀ (steps : List (Nat × Nat)),
+    (∀ p ∈ steps, p.2 ≤ p.1 ∧ p.1 ≤ N ∧ p.2 ≤ S) → ∀ a n, a ≤ A → n ≤ L →
+    ∃ a' n', runAdvance fw steps (List.range' a n) = List.range' a' n' ∧ a' ≤ A ∧ n' ≤ L ∧ (steps ≠ [] → 0 < n') := by
+  intro steps
+  induction steps with
+  | nil => intro _ a n ha hn; exact ⟨a, n, rfl, ha, hn, fun h => absurd rfl h⟩
+  | cons p rest ih =>
+    intro hs a n ha hn
+    obtain ⟨now, sw⟩ := p
+    have hp := hs (now, sw) (by simp)
+    simp only at hp
+    obtain ⟨k, a', n', _, _, hw, hge, hle, _, _, hst⟩ :=
+      advance_window_any now sw fw a n (by omega) hp.1 (by unfold u32 at *; omega) (by unfold u32 at *; omega)
+    simp only [runAdvance, hw]
+    obtain ⟨a'', n'', h1, h2, h3, h4⟩ := ih (fun q hq => hs q (by simp [hq])) a' n' (by omega) (by omega)
+    refine ⟨a'', n'', h1, h2, h3, fun _ => ?_⟩
+    cases rest with
+    | nil => simp only [runAdvance] at h1; have := congrArg List.length h1; simp at this; omega
+    | cons q r => exact h4 (by simp)
+
+/-- non-vacuity: ShortWindow raised 3 → 5 between two ticks one second apart (the schedule on which computing new
+    bucket times from the clock instead of from recentBuckets[0] duplicates a second), then lowered again -/
+example : runAdvance 4 [(100, 3), (101, 5), (102, 3), (103, 4)] [] = [99, 100, 101, 102, 103, 104, 105, 106] := by
+  decide
+example : (advance 101 5 4 [97, 98, 99, 100, 101, 102, 103]).2 = [97, 98, 99, 100, 101, 102, 103, 104, 105] := by decide
+
 /-! ### aggregator: where an accepted second is filed -/
 
 theorem getLastD_range (a n : Nat) : (List.range' a (n + 1)).getLastD 0 = a + n := by
